@@ -678,6 +678,11 @@ func run(e *harness.Env) {
 		for _, format := range formats {
 			ds := dimsFor(format)
 			pm := perms(ps.n)
+			pstrs := make([]string, len(pm))
+			invs := make([][]int, len(pm))
+			for i, p := range pm {
+				pstrs[i], invs[i] = pstr(p), inverse(p)
+			}
 			for _, v := range variants(ds, ps.maxDev) {
 				var vd []interface{}
 				devs := 0
@@ -705,19 +710,24 @@ func run(e *harness.Env) {
 				for i := range id {
 					id[i] = i
 				}
-				for _, decl := range pm {
-					rel := func(a []int) string {
-						if equal(a, decl) {
-							return "declared"
-						}
-						return "other"
+				// descriptors are assembled from precomputed pieces (the enumeration itself must stay cheap:
+				// every worker and every replay walks all of it)
+				head := harness.D("fmt", format, "n", ps.n)
+				tail := " " + vdesc
+				hasDecoy := " hasdecoy=" + fmt.Sprint(v["decoy"] != "none")
+				rel := func(a, decl []int) string {
+					if equal(a, decl) {
+						return "declared"
 					}
-					for _, name := range pm {
-						byName := inverse(name) // parts sorted by file rank
-						for _, zp := range pm {
-							// derived tokens: do file-name order / ZIP order / creation order coincide with the declared order?
-							desc := harness.D("fmt", format, "n", ps.n, "decl", pstr(decl), "name", pstr(name), "zip", pstr(zp)) + " " + vdesc + " " +
-								harness.D("nameorder", rel(byName), "ziporder", rel(zp), "creationorder", rel(id), "hasdecoy", v["decoy"] != "none")
+					return "other"
+				}
+				for di, decl := range pm {
+					creation := " creationorder=" + rel(id, decl)
+					for ni, name := range pm {
+						nameorder := " nameorder=" + rel(invs[ni], decl) // parts sorted by file rank vs declared order
+						mid := head + " decl=" + pstrs[di] + " name=" + pstrs[ni] + " zip="
+						for zi, zp := range pm {
+							desc := mid + pstrs[zi] + tail + nameorder + " ziporder=" + rel(zp, decl) + creation + hasDecoy
 							if !e.Own(desc) {
 								continue
 							}
@@ -751,6 +761,7 @@ func runCase(e *harness.Env, dir, desc string, s *spec, kind string, nontrivial 
 	if err := os.WriteFile(file, b.data, 0o644); err != nil {
 		panic(err)
 	}
+	e.Add("packages_validated_by_reference_reader", 1)
 	e.Begin(desc)
 	var j *judge
 	var openErr error
